@@ -71,7 +71,7 @@ struct Hist {
     bool opSecondObject();
     bool opManyPoints();
     bool opRetainedRefEdit();
-    bool opManyFrames();
+    bool opManyFrames(size_t target = 0);
     bool opBulkParams();
     void loadDecoy();
     bool bulkDone;
